@@ -37,8 +37,11 @@ func genC05(t *rapid.T) KeyCase {
 	for i := 0; i < nk; i++ {
 		m.Keys = append(m.Keys, KeyDef{Code: uint16(30 + i), Note: corner(t, "note", 0, 127, -1, 128, 129), Off: corner(t, "koff", 0, 15, -1, 16, 17)})
 	}
-	m.AnalogSubs = []AnalogSub{{Sub: "", Default: floatp(rapid.SampledFrom([]float64{0, 0.1}).Draw(t, "dz"))}}
-	ranges := []axisRange{{0, 255}, {-128, 127}, {-32768, 32767}, {-1, 1}}
+	m.AnalogSubs = []AnalogSub{{Sub: "", Default: floatp(rapid.SampledFrom([]float64{0, 0.1, 0.1, 0.002, 0.25, 0.3, 0.5, 0.9}).Draw(t, "dz"))}}
+	if rapid.IntRange(0, 3).Draw(t, "dzAny") == 0 {
+		m.AnalogSubs[0].Default = floatp(float64(rapid.IntRange(0, 950).Draw(t, "dzMille")) / 1000)
+	}
+	ranges := []axisRange{{0, 255}, {0, 255}, {-128, 127}, {-32768, 32767}, {-1, 1}, {0, 1023}, {0, 65535}, {-127, 127}, {0, 4}, {1, 255}}
 	kinds := rapid.SliceOfN(rapid.IntRange(0, 4), 1, 4).Draw(t, "axisKinds")
 	for i, k := range kinds {
 		rg := rapid.SampledFrom(ranges).Draw(t, "range")
@@ -48,6 +51,9 @@ func genC05(t *rapid.T) KeyCase {
 		}
 		if rapid.Bool().Draw(t, "flip") {
 			a.Flip = boolp(true)
+		}
+		if rapid.IntRange(0, 3).Draw(t, "ownDeadzone") == 0 {
+			a.Deadzone = floatp(rapid.SampledFrom([]float64{0, 0.05, 0.2, 0.25, 0.33, 0.5, 0.75, 0.95}).Draw(t, "adz"))
 		}
 		if rg.Min == 0 && rapid.Bool().Draw(t, "center") {
 			a.Center = boolp(true)
@@ -115,19 +121,61 @@ func genC05(t *rapid.T) KeyCase {
 		case 3:
 			tap(uint16(62 + rapid.IntRange(0, 2).Draw(t, "other")))
 		default:
-			a := m.Axes[rapid.IntRange(0, len(m.Axes)-1).Draw(t, "axis")]
+			ai := rapid.IntRange(0, len(m.Axes)-1).Draw(t, "axis")
+			a := m.Axes[ai]
+			clamp := func(v int64) int64 {
+				if v < int64(a.Min) {
+					return int64(a.Min)
+				}
+				if v > int64(a.Max) {
+					return int64(a.Max)
+				}
+				return v
+			}
+			// the raw positions at which the deadzone of this axis ends (what was sent before decides nothing in the statement,
+			// but an implementation may remember it: positions are also approached in small steps from either side)
+			dz := effectiveDeadzone(&m, &a)
+			var edges []int64
+			switch {
+			case a.Min < 0:
+				edges = []int64{int64(dz * float64(a.Max)), -int64(dz * float64(-int64(a.Min)))}
+			case a.Center != nil && *a.Center:
+				half := float64(a.Max) / 2
+				edges = []int64{int64(half + dz*half), int64(half - dz*half)}
+			default:
+				edges = []int64{int64(dz * float64(a.Max))}
+			}
 			var v int64
-			switch rapid.IntRange(0, 3).Draw(t, "pos") {
+			walk := 0
+			switch rapid.IntRange(0, 6).Draw(t, "pos") {
 			case 0:
 				v = int64(a.Min)
 			case 1:
 				v = int64(a.Max)
 			case 2:
 				v = (int64(a.Min) + int64(a.Max)) / 2
+			case 3:
+				v = clamp(rapid.SampledFrom(edges).Draw(t, "edge") + int64(rapid.IntRange(-3, 3).Draw(t, "edgeOff")))
+			case 4: // come from well outside the deadzone, then walk across its edge in single raw steps
+				e := rapid.SampledFrom(edges).Draw(t, "edge")
+				dir := int64(1)
+				if e < (int64(a.Min)+int64(a.Max))/2 || (a.Min < 0 && e < 0) {
+					dir = -1
+				}
+				if a.Min >= 0 && !(a.Center != nil && *a.Center) {
+					dir = 1
+				}
+				steps = append(steps, Step{T: "abs", Sub: a.Sub, Code: a.Code, Val: int32(clamp(e + dir*int64(rapid.IntRange(8, 60).Draw(t, "from"))))})
+				v = clamp(e + dir*4)
+				walk = -int(dir)
 			default:
 				v = rapid.Int64Range(int64(a.Min), int64(a.Max)).Draw(t, "raw")
 			}
 			steps = append(steps, Step{T: "abs", Sub: a.Sub, Code: a.Code, Val: int32(v)})
+			for k := 0; walk != 0 && k < 8; k++ {
+				v = clamp(v + int64(walk))
+				steps = append(steps, Step{T: "abs", Sub: a.Sub, Code: a.Code, Val: int32(v)})
+			}
 		}
 	}
 	return KeyCase{D: d, Steps: steps, NoLogs: rapid.Bool().Draw(t, "nologs")}
